@@ -133,3 +133,6 @@ def run_proofs(ctx):
     ctx.assume("A-float: scales are reals", "A-eq: ScaledFactor sets are maps factor -> scale because ScaledFactor.__eq__/__hash__ use `.factor` only; "
                "Factor.__eq__(1) is False (NotImplemented) and the literal 1 equals itself", "python sets keep the element already present when an equal one is added")
     run_contracts(ctx, cs, reg)
+    from vf.proofs import c16_matrix
+
+    c16_matrix.run_proofs(ctx)
